@@ -210,13 +210,10 @@ def apply(model, tok):
     return m2, "applied", {}
 
 
-def observe(model, route, pre_key=None):
-    """classify + code generation + well-formedness of a model a setter returned; (vec, wf, drift) or error info.
-    get_model_features is consulted whenever the vector changed (pre_key given and different)."""
+def observe(model, route, mfl=False):
+    """classify + code generation + well-formedness of a model a setter returned; (vec, wf, drift) or error info"""
     try:
-        vec, drift = classify(model, route)
-        if pre_key is not None and _key(vec) != pre_key:
-            vec, drift = classify(model, route, mfl=True)
+        vec, drift = classify(model, route, mfl=mfl)
     except Exception as e:  # noqa: BLE001
         return None, None, {"exc": "detect:" + type(e).__name__, "where": _site(e), "msg": _norm_msg(str(e))}
     try:
@@ -357,15 +354,7 @@ def same_function(ma, mb, vec_a=None, vec_b=None):
     back to feature vector + graph shape (DESIGN C08)."""
     pa = {p.name for p in ma.parameters} | set(ma.random_variables.names)
     pb = {p.name for p in mb.parameters} | set(mb.random_variables.names)
-    if pa != pb:
-        try:
-            va = vec_a if vec_a is not None else classify(ma)[0]
-            vb = vec_b if vec_b is not None else classify(mb)[0]
-            if va == vb and shape(ma) == shape(mb):
-                return "same", "fallback(vector+shape): parameter names differ " + ",".join(sorted(pa ^ pb))[:80]
-            return "diff", f"fallback: vector/shape differ {va} {shape(ma)} vs {vb} {shape(mb)}"
-        except Exception as e:  # noqa: BLE001
-            return "skip", f"fallback failed: {type(e).__name__}"
+    verdict, why = "same", "exact"
     try:
         for salt in (1, 2):
             d = _diff_items(_fp_items(ma, salt), _fp_items(mb, salt))
@@ -374,18 +363,50 @@ def same_function(ma, mb, vec_a=None, vec_b=None):
                 fd = _diff_items(_float_items(ma, salt), _float_items(mb, salt), tol=1e-6)
                 if fd:
                     k, x, y = fd[0]
-                    return "diff", f"salt {salt}: {k}: {x} vs {y} (exact: {d[0][0]}: {d[0][1]} vs {d[0][2]})"
-                return "same", "model_artefact: exact values differ, floating point agrees"
-        return "same", "exact"
+                    verdict, why = "diff", f"salt {salt}: {k}: {x} vs {y} (exact: {d[0][0]}: {d[0][1]} vs {d[0][2]})"
+                    break
+                why = "model_artefact: exact values differ, floating point agrees"
     except Exception as e:  # noqa: BLE001 - the evaluator could not handle the model: not judged
-        return "skip", f"fingerprint failed: {type(e).__name__}: {str(e)[:80]}"
+        verdict, why = "skip", f"fingerprint failed: {type(e).__name__}: {str(e)[:80]}"
+    if verdict == "same" or pa == pb:
+        return verdict, why
+    # parameter name sets differ (a parameter was renamed / re-created): the probes cannot line the two models up
+    try:
+        va = vec_a if vec_a is not None else classify(ma)[0]
+        vb = vec_b if vec_b is not None else classify(mb)[0]
+        if va == vb and shape(ma) == shape(mb):
+            return "same", "fallback(vector+shape): parameter names differ " + ",".join(sorted(pa ^ pb))[:80]
+        return "diff", f"fallback: vector/shape differ {va} {shape(ma)} vs {vb} {shape(mb)}"
+    except Exception as e:  # noqa: BLE001
+        return "skip", f"fallback failed: {type(e).__name__}"
 
 
 # ----------------------------------------------------------------------------- worker: all obligations of one state
 
 
-def _rebuild(start, hist):
+def _private_copy(start):
+    """pharmpy models share their DataFrame; code generation for some (ill-formed) models adds a CMT column to it in
+    place (the defect C06 reports: add_cmt / add_admid assign into the argument's dataset).  Every task therefore
+    works on a private copy of the start model's dataset, so that one observation cannot influence another."""
     m = _MODELS[start]
+    if m.dataset is None:
+        return m
+    return m.replace(dataset=m.dataset.copy())
+
+
+def _guard_dataset(model, cols0, note):
+    """undo an in-place mutation of the shared dataset (and say so)"""
+    df = model.dataset
+    if df is not None and list(df.columns) != cols0:
+        extra = [c for c in df.columns if c not in cols0]
+        for c in extra:
+            del df[c]
+        return [f"shared dataset mutated in place (column(s) {extra} added) by {note}"]
+    return []
+
+
+def _rebuild(start, hist):
+    m = _private_copy(start)
     for tok in hist:
         m2, out, info = apply(m, tok)
         if m2 is None:
@@ -398,22 +419,22 @@ def _vec_pub(vec):
     return {k: vec[k] for k in CATS + ["route"]}
 
 
-def _step_obs(start, hist, pre, tok, model, route, pre_ndoses, mfl=True):
+def _step_obs(start, hist, pre, tok, model, route, pre_ndoses, mfl=False):
     """execute tok on model; returns (obs dict, model2 | None, post vec | None)"""
-    t0 = time.time()
+    t0 = time.process_time()
     m2, out, info = apply(model, tok)
     obs = {"kind": "step", "start": start, "hist": list(hist), "act": tok, "pre": _vec_pub(pre), "out": out,
            "post": _vec_pub(pre), "wf": {"connected": True, "doses_same": True}, "info": info}
     post = None
     if m2 is not None:
-        post, wf, extra = observe(m2, route, _key(pre) if mfl else None)
+        post, wf, extra = observe(m2, route, mfl)
         if post is None:
             obs["out"], obs["info"], m2 = "error", extra, None
         else:
             obs["post"] = _vec_pub(post)
             obs["wf"] = {"connected": wf["connected"], "doses_same": wf["ndoses"] == pre_ndoses}
             obs["info"] = {"ndoses": wf["ndoses"], "drift": extra["drift"]}
-    obs["dt"] = round(time.time() - t0, 3)
+    obs["dt"] = round(time.process_time() - t0, 3)
     return obs, m2, post
 
 
@@ -424,25 +445,41 @@ def _on_template(ob, post):
 
 def expand(task):
     """Obligations of one reached state: every enabled request, f.f and undo where the spec names them."""
-    start, hist, pre_key, obls, route = task
+    start, hist, pre_key, obls, route, first = task
     model = _rebuild(start, hist)
     pre, _ = classify(model, route)
     if _key(pre) != pre_key:
         raise core.MachineryError(f"history {hist} from {start} reached {_key(pre)} instead of {pre_key} (non-deterministic setter?)")
     nd = wellformed(model)["ndoses"]
+    cols0 = list(model.dataset.columns) if model.dataset is not None else None
     out = []
+    if first:
+        # get_model_features itself (the MFL rendering of this model) must tell the same story as the detectors
+        try:
+            _, drift = classify(model, route, mfl=True)
+            out.extend({"kind": "note", "note": "detector drift: " + dn} for dn in drift)
+        except Exception as e:  # noqa: BLE001 - the detector fails on a model a setter produced
+            if not hist:
+                raise core.MachineryError(f"get_model_features fails on start model {start}: {e}")
+            prev = _rebuild(start, hist[:-1])
+            ppre, _ = classify(prev, route)
+            out.append({"kind": "step", "start": start, "hist": list(hist[:-1]), "act": hist[-1], "pre": _vec_pub(ppre), "out": "error",
+                        "post": _vec_pub(ppre), "wf": {"connected": True, "doses_same": True}, "dt": 0,
+                        "info": {"exc": "detect:" + type(e).__name__, "where": _site(e), "msg": _norm_msg(str(e))}})
     for ob in obls:
         tok = ob["t"]
+        out.extend({"kind": "note", "note": n} for n in _guard_dataset(model, cols0, f"the request before {tok} on {start}:{list(hist)}"))
         obs, m1, post = _step_obs(start, hist, pre, tok, model, route, nd)
         out.append(obs)
+        out.extend({"kind": "note", "note": n} for n in _guard_dataset(model, cols0, f"{tok} (or its f.f / undo) on {start}:{list(hist)}"))
         if m1 is None or not (obs["wf"]["connected"] and obs["wf"]["doses_same"]) or post["abs"] == "NONE" or post["elim"] == "NONE":
             continue
         if "post" in ob and not _on_template(ob, post):
             continue    # the step itself is off the template: reported as such, relations would only repeat it
         nd1 = obs["info"]["ndoses"]
         h1 = list(hist) + [tok]
-        if tok in IDEM_ACTS:
-            obs2, m2, post2 = _step_obs(start, h1, post, tok, m1, route, nd1, mfl=False)
+        if tok in IDEM_ACTS and m1 is not model:     # a setter that returned its argument is trivially idempotent
+            obs2, m2, post2 = _step_obs(start, h1, post, tok, m1, route, nd1)
             obs2["derived"] = "idem"
             out.append(obs2)
             if m2 is not None:
@@ -450,7 +487,7 @@ def expand(task):
                 out.append({"kind": "idem", "start": start, "hist": h1, "act": tok, "pre": _vec_pub(pre), "res": res, "why": why})
         inv = ob.get("inv", "none")
         if inv != "none" and _key(post) != pre_key:
-            obs3, m3, post3 = _step_obs(start, h1, post, inv, m1, route, nd1, mfl=False)
+            obs3, m3, post3 = _step_obs(start, h1, post, inv, m1, route, nd1)
             obs3["derived"] = "undo"
             out.append(obs3)
             if m3 is not None and _key(post3) == pre_key:
@@ -462,7 +499,8 @@ def expand(task):
 def replay_history(task):
     """one simulated history on a start model: every step is an observation; idem / undo as the table says"""
     start, hist, route, table_acts = task
-    model = _MODELS[start]
+    model = _private_copy(start)
+    cols0 = list(model.dataset.columns) if model.dataset is not None else None
     pre, _ = classify(model, route)
     out, done = [], []
     for tok in hist:
@@ -471,11 +509,20 @@ def replay_history(task):
         nd = wellformed(model)["ndoses"]
         obs, m1, post = _step_obs(start, done, pre, tok, model, route, nd)
         out.append(obs)
+        out.extend({"kind": "note", "note": n} for n in _guard_dataset(model, cols0, f"{tok} on {start}:{done}"))
         if m1 is None:
             continue   # refused / failed: the history goes on from the same model
         if not obs["wf"]["connected"] or not obs["wf"]["doses_same"] or post["abs"] == "NONE" or post["elim"] == "NONE":
             break      # ill-formed model: reported, not continued
         model, pre, done = m1, post, done + [tok]
+    if done:
+        try:
+            _, drift = classify(model, route, mfl=True)
+            out.extend({"kind": "note", "note": "detector drift: " + dn} for dn in drift)
+        except Exception as e:  # noqa: BLE001
+            last = [o for o in out if o["kind"] == "step" and o["out"] == "applied"][-1]
+            out.append(dict(last, out="error", post=last["pre"], wf={"connected": True, "doses_same": True},
+                            info={"exc": "detect:" + type(e).__name__, "where": _site(e), "msg": _norm_msg(str(e))}))
     return out
 
 
@@ -578,9 +625,14 @@ class Book:
         self.count: list = []
         self.calls = 0
         self.drift: dict = {}
+        self.notes: dict = {}
         self.times: list = []
 
     def add(self, obs):
+        if obs["kind"] == "note":
+            key = re.sub(r" on \w+:\[.*$", "", obs["note"])[:160]
+            self.notes.setdefault(key, [0, obs["note"]])[0] += 1
+            return
         if obs["kind"] == "step":
             rec = {"kind": "step", "pre": obs["pre"], "act": obs["act"], "out": obs["out"], "post": obs["post"], "wf": obs["wf"]}
             sig = json.dumps([rec, obs["info"].get("exc"), obs["info"].get("where"), obs["info"].get("msg")], sort_keys=True)
@@ -608,7 +660,10 @@ def _case_record(obs, verdict):
     pre["has_metab"] = pre["metab"] != "none"
     tok = obs["act"]
     cat = "TN" if tok.startswith("T:") and tok.endswith("N") else tok[0]
-    full = list(obs["hist"]) + [tok] + ([obs["inv"]] if obs["kind"] == "undo" else []) + ([tok] if obs["kind"] == "idem" else [])
+    if obs["kind"] == "step":
+        full = list(obs["hist"]) + [tok]
+    else:   # relation: hist already ends with the first application of tok
+        full = list(obs["hist"]) + [obs["inv"] if obs["kind"] == "undo" else tok]
     info = obs.get("info", {})
     kind = verdict["v"]
     if kind == "internal-error":
@@ -694,10 +749,10 @@ def walk(v, book, start, svec, acts, depth, table, rng, expand_if=None, max_stat
             obls = [dict(o, inv=o["inv"] if o["inv"] in acts else "none") for o in obls]
             n_states += 1
             for i in range(0, len(obls), CHUNK):
-                tasks.append((start, hist, k, obls[i:i + CHUNK], route))
+                tasks.append((start, hist, k, obls[i:i + CHUNK], route, i == 0))
         results = core.pmap(expand, tasks, procs=16, chunk=1)
         cand: dict = {}
-        for (s_, hist, k, obls, _r), obs_list in zip(tasks, results):
+        for (s_, hist, k, obls, _r, _f), obs_list in zip(tasks, results):
             for obs in obs_list:
                 book.add(obs)
                 if obs["kind"] == "step" and not obs.get("derived"):
@@ -737,7 +792,7 @@ def main(tier: str, seed: int) -> int:
         table = tlc_graph("Features.cfg", MFL5, v)
         plan = [
             ("pheno_real", "iv1", MFL5, 3, None, None),
-            ("mox2", "oral1", MFL5, 3, None, 70),
+            ("mox2", "oral1", MFL5, 3, None, 36),
             # bioavailability / metabolite / effect compartment: the requests themselves and every request after them
             ("pheno_real", "iv1", ALL_ACTS, 2, lambda o: o["act"] in EXT, None),
             ("mox2", "oral1", ALL_ACTS, 2, lambda o: o["act"] in EXT, None),
@@ -745,9 +800,9 @@ def main(tier: str, seed: int) -> int:
     else:
         table = tlc_graph("FeaturesFull.cfg", ALL_ACTS, v, timeout=3000)
         plan = [
-            ("pheno_real", "iv1", ALL_ACTS, 4, None, 420),
-            ("mox2", "oral1", ALL_ACTS, 4, None, 420),
-        ] + [(n, sv, ALL_ACTS, 3, None, 150) for n, _, sv in START_MODELS[2:]]
+            ("pheno_real", "iv1", ALL_ACTS, 4, None, 300),
+            ("mox2", "oral1", ALL_ACTS, 4, None, 300),
+        ] + [(n, sv, ALL_ACTS, 3, None, 100) for n, _, sv in START_MODELS[2:]]
     walks = []
     table_ext: dict = {}   # obligations over the full alphabet, asked from TLC on demand (quick tier)
     for start, svec, acts, depth, expand_if, cap in plan:
@@ -775,6 +830,8 @@ def main(tier: str, seed: int) -> int:
     total_obl = sum(len([o for o in table[k]]) for k in reached if k in table)
     for dn, n in sorted(book.drift.items(), key=lambda kv: -kv[1])[:10]:
         v.notes.append(f"detector drift ({n}x): {dn}")
+    for key, (n, first) in sorted(book.notes.items(), key=lambda kv: -kv[1][0])[:10]:
+        v.notes.append(f"({n}x) {first}")
     times = sorted(book.times)
     v.add_coverage(
         evaluations=book.calls,
@@ -788,7 +845,7 @@ def main(tier: str, seed: int) -> int:
         obligations_of_reached_vectors=total_obl,
         verdict_tally=tally,
         walks=walks,
-        setter_call_ms={"median": int(1000 * times[len(times) // 2]) if times else 0, "p95": int(1000 * times[int(len(times) * 0.95)]) if times else 0},
+        setter_call_cpu_ms={"median": int(1000 * times[len(times) // 2]) if times else 0, "p95": int(1000 * times[int(len(times) * 0.95)]) if times else 0},
         rule="one observation = one call of a public setter on a real model (pre-vector, request, outcome, post-vector, well-formedness) "
              "or one exact comparison f(m) vs f(f(m)) / m vs undo(f(m)); distinct = after merging identical observations from different histories; "
              "every one is judged by TLC (FeaturesTrace.tla)",
@@ -816,7 +873,10 @@ def replay(path: str) -> int:
     print("pre :", pre)
     book = Book()
     ob = {"t": tail[0], "inv": rel["inv"] if rel and rel["kind"] == "undo" else "none"}
-    for obs in expand((case["start"], tuple(hist), _key(pre), [ob], route)):
+    for obs in expand((case["start"], tuple(hist), _key(pre), [ob], route, False)):
+        if obs["kind"] == "note":
+            print(" ", obs["note"])
+            continue
         print(" ", obs["kind"], obs["act"], obs.get("out", obs.get("res")), obs.get("post", ""), obs.get("info", obs.get("why", "")))
         book.add(obs)
     verdicts, _ = tlc_judge(book.recs, None)
